@@ -26,6 +26,6 @@ m = dict(version=1, setup_cmd='./setup.sh',
                        kind_free_text='ast->z3 verification-condition generator (forward symbolic execution with loop invariants and modular calls) over the real source text of /repo, sidecar contracts in contracts/, z3/cvc5 discharge in a 16-process pool; bounded runtime-contract stand-ins in bounded/')],
          checks=[CHECKS[p] for p in props if p in CHECKS],
          not_applicable=[dict(property_id=p, reason=NA[p]) for p in props if p in NA],
-         notes='See DESIGN.md. Exit codes: 0 held / 1 VIOLATION / 2 undecided (solver unknown, contract does not bind) / 3 checker defect.')
+         notes='See DESIGN.md. Exit codes: 0 held / 1 VIOLATION / 2 undecided (obligation outside the committed baseline undecided, target outside the modelled subset, contract does not bind) / 3 checker defect. An obligation of baseline_obligations.json that can no longer be discharged (re-tried alone with a long budget) is reported as VIOLATION ... no-failing-input-found.')
 json.dump(m, open(os.path.join(ROOT, 'MANIFEST.json'), 'w'), indent=1)
 print('checks:', sorted(CHECKS), 'not_applicable:', sorted(NA))
